@@ -53,6 +53,11 @@ def run_mode(spec, parallel, PIDS):
     from vmon import sched, structw, sensors
     from vmon.sensors import Mon, plain_values
     out = {'exc': None, 'end_exc': None, 'pending_sends': 0}
+    # the split / binomial dividers draw from the global generators: same draws in both modes
+    import random
+    import numpy
+    random.seed(20260928)
+    numpy.random.seed(20260928)
     m = Mon()
     Mon.cur = m
     e = None
